@@ -473,3 +473,11 @@ func wrapIntFull(c constant.Value, t types.Type) constant.Value {
 	}
 	return c
 }
+
+// constantFromString parses a Go literal (as produced by ExactString) into a constant.
+func constantFromString(lit string) constant.Value {
+	if len(lit) >= 2 && lit[0] == '"' {
+		return constant.MakeFromLiteral(lit, token.STRING, 0)
+	}
+	return constant.MakeFromLiteral(lit, token.INT, 0)
+}
